@@ -30,6 +30,10 @@ class LoopContract:
         self.enabled = False
         self.mode = mode  # inductive | race
         self.race_log = None
+        self.use_point = False   # choose ONE Skolem cell per array at havoc time; the step check and nested
+        self.point = {}          # pointwise loops talk about that cell
+        self.fixed_point = None  # race analysis: the cell is chosen by the unit (shared by both iterations)
+        self.writes = []         # (buffer, inverse map) of writes inside nested pointwise loops
 
     def active(self):
         return self.enabled and core.active()
@@ -80,9 +84,12 @@ class LoopInstance:
         for name, fn in self.c.arrays.items():
             arr = env[name]
             want = fn(env, i)
-            idx = tuple(core.fresh_int("%s_%s_k%d" % (self.c.name, tag, d), 0, register=False) for d in range(arr.ndim))
-            for k, d in zip(idx, arr.shape):
-                core.assume(k < d)
+            if name in self.c.point:
+                idx = self.c.point[name]
+            else:
+                idx = tuple(core.fresh_int("%s_%s_k%d" % (self.c.name, tag, d), 0, register=False) for d in range(arr.ndim))
+                for k, d in zip(idx, arr.shape):
+                    core.assume(k < d)
             got = arr.elem(idx)
             prove("%s.%s.%s" % (self.c.name, tag, name), _eq(got, want(idx)))
         if self.c.scalars is not None:
@@ -90,8 +97,23 @@ class LoopInstance:
                 prove("%s.%s.%s" % (self.c.name, tag, cname), t)
 
     # -- protocol ----------------------------------------------------------------------
+    def _choose_point(self, env):
+        self.c.point = {}
+        self.c.writes = []
+        if self.c.use_point:
+            for name in self.c.arrays:
+                arr = env[name]
+                if self.c.fixed_point and name in self.c.fixed_point:
+                    self.c.point[name] = self.c.fixed_point[name]
+                    continue
+                idx = tuple(core.fresh_int("%s_cell_%s%d" % (self.c.name, name, d), 0, register=True) for d in range(arr.ndim))
+                for k, d in zip(idx, arr.shape):
+                    core.assume(k < d)
+                self.c.point[name] = idx
+
     def enter(self, it, env):
         self.lo, self.hi = self._bounds(it)
+        self._choose_point(env)
         if self.c.mode == "race":
             return
         core.assume(SV.lift(self.lo) <= SV.lift(self.hi))
@@ -150,6 +172,111 @@ class LoopInstance:
 
     def exit(self, env):
         core.cover("%s.exit" % self.c.name)
+
+
+class PointwiseContract:
+    """Contract of a loop (nest) in which iteration v writes only cells whose coordinate along `axis` of `array` is v
+    and reads nothing another iteration writes.  The final content of ONE cell P (the Skolem cell of the enclosing
+    inductive contract `outer`) is then: the effect of the single iteration v = P[axis] if that lies in the loop's
+    range, unchanged otherwise.  The loop is executed accordingly (at most one iteration, with the loop variable bound
+    to P[axis]); the side conditions are obligations:  every write recorded in the body touches only cells with
+    coordinate P[axis] along `axis`, and all other cells of the array are havocked first, so that an iteration reading
+    what a different iteration writes cannot be verified."""
+
+    def __init__(self, name, outer, array, axis, first=False, pixel_axes=()):
+        self.name, self.outer, self.array, self.axis, self.first, self.pixel_axes = name, outer, array, axis, first, tuple(pixel_axes)
+
+    def active(self):
+        return self.outer.active()
+
+    def instance(self, key):
+        return PointwiseInstance(self, key)
+
+
+class PointwiseInstance:
+    def __init__(self, contract, key):
+        self.c = contract
+        self.key = key
+
+    def _P(self):
+        P = self.c.outer.point.get(self.c.array)
+        if P is None:
+            raise Undecided("pointwise loop without a Skolem cell of the enclosing contract")
+        return P
+
+    def enter(self, it, env):
+        from . import loader
+
+        if isinstance(it, loader.SymRange):
+            self.lo, self.hi = it.lo, it.hi
+        elif isinstance(it, range) and it.step == 1:
+            self.lo, self.hi = it.start, it.stop
+        else:
+            raise Undecided("pointwise loop contract on a non-range iterable")
+        if self.c.first:
+            # every cell of the array other than P becomes arbitrary: only P is tracked through the nest
+            arr = env[self.c.array]
+            P = self._P()
+            old = arr.buf.elem
+            f = z3.Function(core.cur().fresh_name("other_cells_" + self.c.array), *([z3.IntSort()] * max(1, arr.ndim)), z3.RealSort())
+            axes = self.c.pixel_axes
+
+            def elem(b, old=old, f=f, P=P, axes=axes):
+                same = SV.lift(True)
+                for a in axes:
+                    same = same & (SV.lift(b[a]) == SV.lift(P[a]))
+                cs = core.concrete(same)
+                if cs is True:
+                    return old(b)
+                if cs is False:
+                    return SV(f(*[core.term(SV.lift(x)) for x in b]), "r")
+                o = old(b)
+                if isinstance(o, (snp.MaybeNaN, snp.NaN)):
+                    o = snp.MaybeNaN.of(o)
+                    return snp.MaybeNaN(core.ite(same, o.isnan, False), core.ite(same, o.val, SV(f(*[core.term(SV.lift(x)) for x in b]), "r")))
+                return core.ite(same, o, SV(f(*[core.term(SV.lift(x)) for x in b]), "r"))
+
+            arr.buf.write(elem)
+            prev = self._prev_hook = snp.WRITE_HOOK[0]
+
+            def hook(buf, inv, prev=prev):
+                self.c.outer.writes.append((buf, inv))
+                if prev is not None:
+                    prev(buf, inv)
+
+            snp.WRITE_HOOK[0] = hook
+
+    def index(self, env):
+        return self._P()[self.c.axis]
+
+    def havoc(self, names, env):
+        self.mark = len(self.c.outer.writes)
+        return tuple(env.get(n) for n in names)
+
+    def take_body(self):
+        v = SV.lift(self._P()[self.c.axis])
+        return bool((v >= SV.lift(self.lo)) & (v < SV.lift(self.hi)))
+
+    def step(self, env):
+        arr = env[self.c.array]
+        P = self._P()
+        for k, (buf, inv) in enumerate(self.c.outer.writes[self.mark:]):
+            if buf is not arr.buf:
+                raise Undecided("pointwise loop writes an array outside its contract")
+            b = tuple(core.fresh_int("%s_w%d_%d" % (self.c.name, k, d), 0, register=False) for d in range(arr.ndim))
+            ok, _ = inv(b)
+            prove("%s.writes_only_own_cells[%d]" % (self.c.name, k), core.implies(ok, SV.lift(b[self.c.axis]) == SV.lift(P[self.c.axis])))
+        self._leave()
+
+    def _leave(self):
+        if self.c.first:
+            snp.WRITE_HOOK[0] = self._prev_hook
+
+    def on_break(self, env):
+        raise Undecided("break inside a loop with a contract")
+
+    def exit(self, env):
+        self._leave()
 
 
 def _eq(a, b):
